@@ -51,6 +51,13 @@ def special_cases(rnd):
         for depth in (30, 31, 32, 33, 62, 63, 64, 65, 66):
             body = b"".join(b"\x01v\0" for _ in range(depth)) + b"\x01y\0\x05"
             out.append(mk("v", body, le))
+        # containers at the nesting limit: fixed-size arrays, string arrays, structs (FD65 boundary)
+        for k in (62, 63, 64, 65):
+            for isig, ival in (("ay", [7]), ("ay", []), ("ai", [1, 2]), ("as", ["x"]), ("(y)", (7,)), ("ab", [True])):
+                v = Variant(isig, ival)
+                for _ in range(k - 1):
+                    v = Variant("v", v)
+                out.append(Msg(4, 0, 1, {1: "/a", 2: "a.b", 3: "S"}, "v", (v,), le=le).encode())
         # signatures as header field 8 with mis-nested brackets
         for sg in ("(a{ii)i}", "a{i(i})", "a(a{ii)i}", "((a{ii)i}i)"):
             out.append(mk(sg, b"\0" * 32, le))
@@ -204,12 +211,44 @@ def run(ctx):
                        "no read/write outside the buffer is observed through ASan/UBSan + assertions on the implementation side and as explicit Fault in the model"]
 
 
+def fixed_array_at_depth_limit(m):
+    """FD65 class: a non-empty array of fixed-size elements whose own container depth is 64 (its elements would be at 65)"""
+    from rawbus import Variant, split_sig
+
+    def walk(sig, val, depth):
+        c = sig[0]
+        if c == "v":
+            return walk(val.sig, val.val, depth + 1)
+        if c == "a":
+            et = sig[1:]
+            if et[0] in "ybnqiuxtdh":
+                return depth == 64 and len(val) > 0
+            if et[0] == "{":
+                ks, vs = split_sig(et[1:-1])
+                return any(walk(vs, x[1], depth + 2) for x in val)
+            return any(walk(et, x, depth + 1) for x in val)
+        if c == "(":
+            return any(walk(t, x, depth + 1) for t, x in zip(split_sig(sig[1:-1]), val))
+        return False
+    try:
+        return any(walk(t, v, 0) for t, v in zip(split_sig(m.sig), m.body))
+    except Exception:
+        return False
+
+
 def known_class(known, b, direction):
     """narrow matchers for the recorded findings"""
     from rawbus import parse_message
     for k in known:
         if k.get("direction") != direction:
             continue
+        if k["id"] == "FD65":
+            try:
+                m, _ = parse_message(bytearray(b))
+            except Exception:
+                m = None
+            if m is not None and fixed_array_at_depth_limit(m):
+                return k
         if k["id"] == "F2":
             # destination / sender is a unique name with fewer than two elements or an empty first element
             try:
